@@ -1,0 +1,77 @@
+//go:build verif
+
+package parquet
+
+// Contracts for the govc verifier (/verif). Compiled only with the build tag
+// "verif"; the //@ lines are machine-checked specifications of the functions
+// of this package.
+
+// ---- dynamic types of the writers the library passes around internally
+//@ pred isBB(x) := dyn(x) == typeid("*bytebufferpool.ByteBuffer") && payload(x) != 0
+//@ pred asBB(x) := cast("*bytebufferpool.ByteBuffer", x)
+//@ pred isWC(x) := dyn(x) == typeid("*parquet.writeCounter") && payload(x) != 0 && isBB(cast("*parquet.writeCounter", x).w)
+//@ pred asWC(x) := cast("*parquet.writeCounter", x)
+
+//@ iface Stats.NullCount
+//@   modifies nothing
+//@ iface Stats.DistinctCount
+//@   modifies nothing
+//@ iface Stats.Min
+//@   modifies nothing
+//@ iface Stats.Max
+//@   modifies nothing
+
+// ---- write path
+
+// Shape invariant of the metadata accumulator: a serializer is attached and
+// every row group carries its column map.
+//@ pred metaOK(m) := m != nil && m.ts != nil && (forall k in 0..#m.rowGroups: m.rowGroups[k].columns != nil)
+
+//@ func (*writeCounter).Write
+//@   requires w != nil && isBB(w.w)
+//@   modifies w, asBB(w.w), HA(asBB(w.w).B)
+//@   ensures err == nil && res0 == #p && w.n == old(w.n) + #p && w.w == old(w.w) && sameOrFresh(asBB(w.w).B)
+//@   ensures[C09] wfault && !old(wfault) ==> err != nil
+
+//@ func writeLevels
+//@   requires width <= 4 && isWC(w)
+//@   modifies asWC(w), asBB(asWC(w).w), HA(asBB(asWC(w).w).B)
+//@   ensures err == nil && asWC(w).w == old(asWC(w).w) && sameOrFresh(asBB(asWC(w).w).B)
+//@   ensures[C09] wfault && !old(wfault) ==> err != nil
+//@ loop writeLevels#1
+//@   modifies enc, enc.out, HA(enc.out.d), HA(enc.valBuf)
+//@   invariant enc != nil && enc.out != nil && #enc.valBuf == 8 && freshsince(enc) && freshsince(enc.out) && freshsince(enc.valBuf) && freshsince(enc.out.d)
+
+//@ func compress
+//@   requires buf != nil
+//@   modifies buf, HA(buf.B)
+//@   ensures sameOrFresh(buf.B)
+//@   ensures[C09] wfault && !old(wfault) ==> res3 != nil
+
+//@ func (*RowGroup).updateColumnChunk
+//@   requires r != nil && r.columns != nil
+//@   modifies mapOf(r.columns), heap("sch.ColumnMetaData")
+
+//@ func (*Metadata).updateRowGroup
+//@   requires metaOK(m)
+//@   ensures metaOK(m)
+//@   modifies HA(m.rowGroups), heap("sch.ColumnMetaData"), heap("map[string]sch.ColumnChunk")
+
+//@ func (*Metadata).WritePageHeader
+//@   requires metaOK(m) && external(w)
+//@   ensures metaOK(m)
+//@   modifies m, HA(m.rowGroups), heap("sch.ColumnMetaData"), heap("map[string]sch.ColumnChunk"), wfault
+//@   ensures[C09] wfault && !old(wfault) ==> err != nil
+
+//@ func (*RequiredField).DoWrite
+//@   requires f != nil && metaOK(meta) && external(w)
+//@   ensures metaOK(meta)
+//@   modifies meta, HA(meta.rowGroups), heap("sch.ColumnMetaData"), heap("map[string]sch.ColumnChunk"), wfault
+//@   ensures[C09] wfault && !old(wfault) ==> err != nil
+
+//@ func (*OptionalField).DoWrite
+//@   requires f != nil && metaOK(meta) && external(w)
+//@   ensures metaOK(meta)
+//@   requires f.MaxLevels.Def <= 15 && f.MaxLevels.Rep <= 15
+//@   modifies meta, HA(meta.rowGroups), heap("sch.ColumnMetaData"), heap("map[string]sch.ColumnChunk"), wfault
+//@   ensures[C09] wfault && !old(wfault) ==> err != nil
